@@ -23,20 +23,48 @@ func (addr) Network() string { return "mem" }
 func (addr) String() string  { return "mem" }
 
 // Conn is an in-memory net.Conn. Reads come from R; each Write call is handed to W (and logged).
+//
+// Deadlines are honoured on a virtual clock owned by the harness: Elapse lets "a long time" pass
+// (longer than any timeout in use). A deadline that was armed before the last Elapse and neither
+// cleared nor re-armed since has expired: the operation it covers fails with a timeout error, as
+// on a real socket. Deadlines armed after the last Elapse never expire (no wall clock involved).
 type Conn struct {
 	R       io.Reader
 	W       func(p []byte) (int, error)
 	mu      sync.Mutex
 	Closed  bool
 	OnClose func()
+
+	epoch          int
+	rArmed, wArmed bool
+	rEpoch, wEpoch int
+}
+
+type timeoutError struct{ op string }
+
+func (t *timeoutError) Error() string {
+	return t.op + " mem: i/o timeout (a deadline armed earlier was left on the connection)"
+}
+func (t *timeoutError) Timeout() bool   { return true }
+func (t *timeoutError) Temporary() bool { return true }
+
+// Elapse lets a long time pass on the connection's clock.
+func (c *Conn) Elapse() {
+	c.mu.Lock()
+	c.epoch++
+	c.mu.Unlock()
 }
 
 func (c *Conn) Read(p []byte) (int, error) {
 	c.mu.Lock()
 	cl := c.Closed
+	expired := c.rArmed && c.rEpoch < c.epoch
 	c.mu.Unlock()
 	if cl {
 		return 0, io.ErrClosedPipe
+	}
+	if expired {
+		return 0, &timeoutError{"read"}
 	}
 	return c.R.Read(p)
 }
@@ -44,9 +72,13 @@ func (c *Conn) Read(p []byte) (int, error) {
 func (c *Conn) Write(p []byte) (int, error) {
 	c.mu.Lock()
 	cl := c.Closed
+	expired := c.wArmed && c.wEpoch < c.epoch
 	c.mu.Unlock()
 	if cl {
 		return 0, io.ErrClosedPipe
+	}
+	if expired {
+		return 0, &timeoutError{"write"}
 	}
 	return c.W(p)
 }
@@ -69,11 +101,24 @@ func (c *Conn) IsClosed() bool {
 	return c.Closed
 }
 
-func (c *Conn) LocalAddr() net.Addr                { return addr{} }
-func (c *Conn) RemoteAddr() net.Addr               { return addr{} }
-func (c *Conn) SetDeadline(t time.Time) error      { return nil }
-func (c *Conn) SetReadDeadline(t time.Time) error  { return nil }
-func (c *Conn) SetWriteDeadline(t time.Time) error { return nil }
+func (c *Conn) LocalAddr() net.Addr  { return addr{} }
+func (c *Conn) RemoteAddr() net.Addr { return addr{} }
+func (c *Conn) SetDeadline(t time.Time) error {
+	c.SetReadDeadline(t)
+	return c.SetWriteDeadline(t)
+}
+func (c *Conn) SetReadDeadline(t time.Time) error {
+	c.mu.Lock()
+	c.rArmed, c.rEpoch = !t.IsZero(), c.epoch
+	c.mu.Unlock()
+	return nil
+}
+func (c *Conn) SetWriteDeadline(t time.Time) error {
+	c.mu.Lock()
+	c.wArmed, c.wEpoch = !t.IsZero(), c.epoch
+	c.mu.Unlock()
+	return nil
+}
 
 // Sink collects the bytes an endpoint writes, per Write call.
 type Sink struct {
@@ -112,6 +157,8 @@ type Config struct {
 	ReadBuf, WriteBuf int  // 0 = reuse the hijacked bufio buffers (server) / library default (client)
 	BrwRead, BrwWrite int  // sizes of the hijacked bufio.ReadWriter (server, when ReadBuf/WriteBuf are 0)
 	Compression       bool // offer / accept permessage-deflate
+	// HandshakeTimeout of the Dialer (client only); 0 = none
+	HandshakeTimeout time.Duration `json:"handshake_timeout,omitempty"`
 }
 
 type hijackWriter struct {
@@ -225,7 +272,7 @@ func NewClient(cfg Config, acceptCompression bool, in io.Reader, out *Sink) (*we
 	}}
 	nc := &Conn{R: &seqReader{first: lazy, rest: in}, W: out.Write}
 	d := websocket.Dialer{NetDial: func(network, addr string) (net.Conn, error) { return nc, nil },
-		ReadBufferSize: cfg.ReadBuf, WriteBufferSize: cfg.WriteBuf, EnableCompression: cfg.Compression}
+		ReadBufferSize: cfg.ReadBuf, WriteBufferSize: cfg.WriteBuf, EnableCompression: cfg.Compression, HandshakeTimeout: cfg.HandshakeTimeout}
 	c, _, err := d.Dial("ws://example.com/chat", nil)
 	if err != nil {
 		return nil, nil, hs, fmt.Errorf("Dial: %v", err)
@@ -318,7 +365,7 @@ func NewPairHook(ccfg, scfg Config, afterUpgrade func(server *websocket.Conn) er
 	}}
 	p.ClientNC = &Conn{R: &seqReader{first: lazy, rest: p.S2C}, W: p.ClientOut.Write}
 	d := websocket.Dialer{NetDial: func(network, addr string) (net.Conn, error) { return p.ClientNC, nil },
-		ReadBufferSize: ccfg.ReadBuf, WriteBufferSize: ccfg.WriteBuf, EnableCompression: ccfg.Compression}
+		ReadBufferSize: ccfg.ReadBuf, WriteBufferSize: ccfg.WriteBuf, EnableCompression: ccfg.Compression, HandshakeTimeout: ccfg.HandshakeTimeout}
 	c, _, err := d.Dial("ws://example.com/chat", nil)
 	if upErr != nil {
 		return nil, fmt.Errorf("server side of the handshake: %v", upErr)
